@@ -145,7 +145,9 @@ def run(pid, tier, programs=None, phases=()):
         tsan_runs(res, tier, known)
     for ph in phases:
         ph(res, tier)
-    out = k3.explore(tier, C.seed(), programs=programs)
+    # K3(ii), the replay of executions as schedules of Model/Conc sections, ties the theorems of C01Conc / C06Conc / C05Conc;
+    # the protocol-level properties (C03, C04) are about Proto.accept only and do not depend on the layout the sections produce
+    out = k3.explore(tier, C.seed(), programs=programs, with_sections=pid in ("C01", "C06"))
     for b in out["build_errors"]:
         res.add_broken("K3 harness does not compile against /repo (%s)" % b["config"], b["log"])
     for c in out["crashes"][:2]:
